@@ -32,6 +32,8 @@ def mutate(rng, text):
         names = set()
         for i, name in picked:
             new = name + rng.choice(["_x", "2", "_undefined"])
+            while any(new == dn for _, dn in defs):       # `endif2` + "2" may be the defined `endif22`
+                new += "_u"
             lines[i] = re.sub(r"\b" + re.escape(name) + r"\s*$", new, lines[i])
             names.add(new)
         return "\n".join(lines), ("undefined", names)
